@@ -30,7 +30,12 @@ RULE = ("cases = (wrapper in {marginalize, ablate, space, marginalize_annotation
 ASSUMPTIONS = ["func returns a tensor or a flat tuple/list of tensors (no nested containers)",
                "ablate_annotations with per-example args and B > 1 is refused by the code (counted as rejected_by_sut)"]
 
-ALPHA = ["A", "C", "G", "T"]
+_CUR = {"alpha": ["A", "C", "G", "T"]}
+
+
+def _A():
+    """alphabet (order = channel order) of the case being executed"""
+    return _CUR["alpha"]
 
 
 def make_echo(nout, log=None):
@@ -55,7 +60,7 @@ def make_echo(nout, log=None):
 
 
 def echo_expected(s, argrow, nout, bias=0):
-    row = [float(ALPHA.index(c) + 1) + bias if c in ALPHA else 0.0 + bias for c in s] + [float(v) for a in argrow for v in a]
+    row = [float(_A().index(c) + 1) + bias if c in _A() else 0.0 + bias for c in s] + [float(v) for a in argrow for v in a]
     return [torch.tensor([v * (k + 1) + k for v in row], dtype=torch.float64) for k in range(nout)]
 
 
@@ -68,7 +73,7 @@ class Env:
         self.kind = case["func"]
         self.bias = 0
         self.argvals = case.get("args") or []          # list over args of list over examples of list of ints
-        self.X = gen.encode_batch(self.seqs, ALPHA, gen.DTYPES[case.get("dtype", "float64")])
+        self.X = gen.encode_batch(self.seqs, _A(), gen.DTYPES[case.get("dtype", "float64")])
         self.args = tuple(torch.tensor(a, dtype=torch.int64) for a in self.argvals)
         if self.kind == "predict":
             outs = [[2 + k] for k in range(self.nout)]
@@ -96,12 +101,12 @@ class Env:
         if self.kind == "dls":
             import copy
             import warnings
-            x = gen.encode(s, ALPHA, torch.float64).unsqueeze(0)
+            x = gen.encode(s, _A(), torch.float64).unsqueeze(0)
             with warnings.catch_warnings():
                 warnings.simplefilter("ignore")
                 a = deep_lift_shap(copy.deepcopy(self.model), x, device="cpu", n_shuffles=2, target=0, random_state=self.case.get("rs", 0))
             return [a[0]]
-        x = gen.encode(s, ALPHA, torch.float64).unsqueeze(0)
+        x = gen.encode(s, _A(), torch.float64).unsqueeze(0)
         a = [torch.tensor([r], dtype=torch.int64) for r in argrow]
         y = self.model.reference(x, *a)
         return [y[0]] if isinstance(y, torch.Tensor) else [t[0] for t in y]
@@ -139,6 +144,7 @@ def wrapper_case(case, ctx):
 
 
 def _one_call(case, ctx, bias, via, record):
+    _CUR["alpha"] = list(case.get("alphabet", "ACGT"))
     env = Env(case)
     env.bias = bias
     op = case["op"]
@@ -167,12 +173,12 @@ def _one_call(case, ctx, bias, via, record):
             marg = motif
             per = [motif] * B
         elif case["motif_form"] == "shared":
-            marg = gen.encode(motif, ALPHA, env.X.dtype).unsqueeze(0)
+            marg = gen.encode(motif, _A(), env.X.dtype).unsqueeze(0)
             per = [motif] * B
         else:
             per = [motif[i:] + motif[:i] for i in range(B)]
-            marg = gen.encode_batch(per, ALPHA, env.X.dtype)
-        yb, ya = sut(marginalize, env.model, env.X, marg, start=p, func=env.func, **kw)
+            marg = gen.encode_batch(per, _A(), env.X.dtype)
+        yb, ya = sut(marginalize, env.model, env.X, marg, start=p, alphabet=_A(), func=env.func, **kw)
         yb, ya = _outs(yb, nout, "marginalize-before"), _outs(ya, nout, "marginalize-after")
         for i in range(B):
             s = env.seqs[i]
@@ -193,14 +199,14 @@ def _one_call(case, ctx, bias, via, record):
         for i in range(B):
             _cmp([y[i] for y in yb], env.expect(env.seqs[i], env.argrow(i)), "ablate-before", "example %d" % i)
             for j in range(n):
-                t = gen.decode_strict(Xp[i, j], ALPHA)
+                t = gen.decode_strict(Xp[i, j], _A())
                 _cmp([y[i, j] for y in ya], env.expect(t, env.argrow(i)), "ablate-after", "example %d shuffle %d" % (i, j))
         nt = B >= 2 and n >= 2 and (nout >= 2 or len(env.args) >= 1)
 
     elif op == "space":
         motifs, rows = case["motifs"], case["spacing"]
         p = case["start"]
-        yb, ya = sut(space, env.model, env.X, motifs, rows, start=p, func=env.func, **kw)
+        yb, ya = sut(space, env.model, env.X, motifs, rows, start=p, alphabet=_A(), func=env.func, **kw)
         yb, ya = _outs(yb, nout, "space-before"), _outs(ya, nout, "space-after")
         for i in range(B):
             for r, sp in enumerate(rows):
@@ -217,7 +223,7 @@ def _one_call(case, ctx, bias, via, record):
     elif op == "marginalize_annotations":
         ann = case["annotations"]                     # rows (idx, start, end) into the source batch
         src = case["source"]
-        Xs = gen.encode_batch(src, ALPHA, env.X.dtype)
+        Xs = gen.encode_batch(src, _A(), env.X.dtype)
         A_t = torch.tensor(ann, dtype=torch.int64)
         yb, ya = sut(marginalize_annotations, env.model, Xs, env.X, A_t, func=env.func, **kw)
         yb, ya = _outs(yb, nout, "marginalize_annotations-before"), _outs(ya, nout, "marginalize_annotations-after")
@@ -251,7 +257,7 @@ def _one_call(case, ctx, bias, via, record):
             Xp = shuffle(env.X[idx:idx + 1], start=s0, end=e0, n=n, random_state=seed)
             _cmp([y[ai, 0] for y in yb], env.expect(env.seqs[idx], env.argrow(idx)), "ablate_annotations-before", "annotation %d" % ai)
             for j in range(n):
-                t = gen.decode_strict(Xp[0, j], ALPHA)
+                t = gen.decode_strict(Xp[0, j], _A())
                 _cmp([y[ai, 0, j] for y in ya], env.expect(t, env.argrow(idx)), "ablate_annotations-after", "annotation %d shuffle %d" % (ai, j))
         nt = len(ann) >= 2 and len(ann) != nout and B >= 2
         if nout >= 2:
@@ -318,6 +324,7 @@ def strategy(draw):
     case = {"op": op, "seqs": seqs, "nout": nout, "func": func,
             "seed": draw(st.integers(0, 10 ** 6)), "dtype": draw(st.sampled_from(["float64", "float32", "int8"])),
             "batch_size": draw(st.integers(1, 7)), "container": draw(st.sampled_from(["tuple", "list"])),
+            "alphabet": draw(st.sampled_from(["ACGT", "ACGT", "TGCA", "CATG"])),
             "bias": draw(st.sampled_from([0, 0, 3, 7])), "bias_via": draw(st.sampled_from(["kwargs", "additional_func_kwargs"]))}
     if func == "dls":
         case["arch"] = draw(nets.arch_strategy(L, max_blocks=2, n_targets=2))
@@ -332,11 +339,11 @@ def strategy(draw):
         case["start"] = draw(st.one_of(st.none(), st.integers(0, L - m)))
     elif op == "ablate":
         a = draw(st.integers(0, L - 4))
-        case["start"], case["end"] = a, draw(st.integers(a + 4, L))
+        case["start"], case["end"] = a, draw(st.one_of(st.integers(a + 4, L), st.just(-1)))      # -1: the documented "through the end"
         case["n"] = draw(st.integers(1, 5))
         case["rs"] = case.get("rs", draw(st.integers(0, 10 ** 6)))
         case["shuffle_fn"] = draw(st.sampled_from(["shuffle", "shuffle", "dinucleotide_shuffle"]))
-        if case["shuffle_fn"] == "dinucleotide_shuffle" and case["end"] - case["start"] < 10:
+        if case["shuffle_fn"] == "dinucleotide_shuffle" and (case["end"] if case["end"] > 0 else L - 1) - case["start"] < 10:
             case["n"] = 1
     elif op == "space":
         k = draw(st.integers(2, 3))
